@@ -317,8 +317,40 @@ fn run(ctx: &mut Ctx) {
                 Some(n) => n.clone(),
                 None => format!("{}", x),
             };
+            // boundary numbers (and a sample of the others) are rendered on a brand-new thread, so
+            // that theirs is the first rendering that thread ever does
+            let fresh = x <= 41 || x >= 65_533 || x == 255 || x == 256 || idx % 512 == 3;
+            let fresh_texts: Option<Vec<Option<String>>> = if fresh && ctx.tier != Tier::Miri {
+                ctx.rep.bucket("render.on_fresh_thread");
+                std::thread::spawn(move || {
+                    (0..27u8)
+                        .map(|k| {
+                            let k2 = (k + 26) % 27; // start with an AVP-related variant
+                            let e = super::c19::error_variant(k2, x);
+                            match crate::monitor::panic::catch(|| e.to_string()) {
+                                crate::monitor::panic::Ended::Returned(s) => Some(s),
+                                _ => None,
+                            }
+                        })
+                        .collect::<Vec<_>>()
+                })
+                .join()
+                .ok()
+            } else {
+                None
+            };
             for k in 0..27u8 {
                 let e = super::c19::error_variant(k, x);
+                if let Some(ft) = &fresh_texts {
+                    // same text on a fresh thread as on this (well-used) one
+                    let here = crate::monitor::panic::catch(|| e.to_string());
+                    let there = &ft[((k as usize) + 1) % 27];
+                    if let crate::monitor::panic::Ended::Returned(h) = here {
+                        if there.as_ref() != Some(&h) {
+                            ctx.violate("C20:render:depends-on-thread-history", format!("{:?} renders as {:?} on a thread that has rendered errors before, and as {:?} when it is the first thing a new thread renders", e, h, there), J::obj(vec![("error", J::s(format!("{:?}", e)))]));
+                        }
+                    }
+                }
                 let txt = match crate::monitor::panic::catch(|| e.to_string()) {
                     crate::monitor::panic::Ended::Returned(s) => s,
                     crate::monitor::panic::Ended::Panicked(p) => {
